@@ -16,6 +16,7 @@ import (
 	"fmt"
 	"image"
 	"io/ioutil"
+	"math"
 	"net/http"
 	"net/url"
 	"os"
@@ -2243,11 +2244,17 @@ func (d *Data) newLabel(v dvid.VersionID) (uint64, error) {
 
 	// Increment and store if we don't have an ephemeral new label start ID.
 	if d.NextLabel != 0 {
+		if d.NextLabel == math.MaxUint64 {
+			return 0, fmt.Errorf("cannot allocate new label: next label counter is at the maximum 64-bit value")
+		}
 		d.NextLabel++
 		if err := d.persistNextLabel(); err != nil {
 			return d.NextLabel, err
 		}
 		return d.NextLabel, nil
+	}
+	if d.MaxRepoLabel == math.MaxUint64 {
+		return 0, fmt.Errorf("cannot allocate new label: max label is already the maximum 64-bit value")
 	}
 	d.MaxRepoLabel++
 	d.MaxLabel[v] = d.MaxRepoLabel
@@ -2264,18 +2271,27 @@ func (d *Data) newLabel(v dvid.VersionID) (uint64, error) {
 func (d *Data) newLabels(v dvid.VersionID, numLabels uint64) (begin, end uint64, err error) {
 	if numLabels <= 0 {
 		err = fmt.Errorf("cannot request %d new labels, must be 1 or more", numLabels)
+		return
 	}
 	d.mlMu.Lock()
 	defer d.mlMu.Unlock()
 
 	// Increment and store.
 	if d.NextLabel != 0 {
+		if numLabels > math.MaxUint64-d.NextLabel {
+			err = fmt.Errorf("cannot request %d new labels: exceeds 64-bit label space above next label %d", numLabels, d.NextLabel)
+			return
+		}
 		begin = d.NextLabel + 1
 		end = d.NextLabel + numLabels
 		d.NextLabel = end
 		if err = d.persistNextLabel(); err != nil {
 			return
 		}
+		return
+	}
+	if numLabels > math.MaxUint64-d.MaxRepoLabel {
+		err = fmt.Errorf("cannot request %d new labels: exceeds 64-bit label space above max label %d", numLabels, d.MaxRepoLabel)
 		return
 	}
 	begin = d.MaxRepoLabel + 1
